@@ -49,8 +49,8 @@ from mc.harness import (Event, Fwd, Instant, Rec, Simulation, pmap, rotate,
 
 from happysimulator.components.rate_limiter import (  # noqa: E402
     AdaptivePolicy, DistributedRateLimiter, FixedWindowPolicy, Inductor,
-    LeakyBucketPolicy, NullRateLimiter, RateLimitedEntity, SlidingWindowPolicy,
-    TokenBucketPolicy)
+    LeakyBucketPolicy, NullRateLimiter, RateAdjustmentReason, RateLimitedEntity,
+    SlidingWindowPolicy, TokenBucketPolicy)
 
 PID = "C10"
 S = 1_000_000_000
@@ -285,8 +285,10 @@ class PolicyRunner:
             before = pol.current_rate
             if kind == "succ":
                 pol.record_success(Instant(t_ns))
-            else:
-                pol.record_failure(Instant(t_ns))
+            elif kind == "fail":
+                pol.record_failure(Instant(t_ns))  # default reason
+            else:  # "fail:<REASON>" — every member of the library's reason enum
+                pol.record_failure(Instant(t_ns), reason=RateAdjustmentReason[kind.split(":", 1)[1]])
             after = pol.current_rate
             if after < before:
                 self.decreased = True
@@ -433,7 +435,7 @@ def run_policy_sequence(spec, dyadic, mode, ops, verbose=False):
         if verbose:
             res = r.results[-1]
             what = {"acq": "try_acquire", "succ": "record_success", "fail": "record_failure",
-                    "tua": "time_until_available"}[kind]
+                    "tua": "time_until_available"}.get(kind) or f"record_failure({kind[5:]})"
             extra = f" current_rate={r.policy.current_rate}" if r.rates is not None else ""
             print(f"  t={t:>12}ns {what:<15} -> {res}{extra}   admitted so far: {r.admitted}")
             for fp, desc in v:
@@ -471,6 +473,16 @@ NONDYADIC_SPECS = [
     (("sliding", 0.3, 2), (0, 1, 2, 3), 5, 7),
     (("fixed", 1, 0.1), (0, 2, 5, 6, 7), 5, 7),
     (("fixed", 2, 0.3), (0, 1, 2, 4), 5, 7),
+    # constants whose nanosecond value has a float fractional part >= 0.5 (int(x*1e9) != round(x*1e9)):
+    # truncating and rounding code paths disagree by 1 ns on these
+    (("fixed", 1, 1.001), (0, 1, 2, 4), 5, 7),
+    (("fixed", 2, 1.003), (0, 2, 3, 4), 5, 7),
+    (("sliding", 1.001, 1), (0, 1, 2, 4), 5, 7),
+    (("sliding", 1.007, 2), (0, 2, 3, 4), 5, 7),
+    (("token", 1.0, 1.5, None), (0, 1, 2, 4), 5, 7),
+    (("token", 2.0, 1.0 / 1.001, 0.0), (0, 2, 3, 4), 5, 7),
+    (("leaky", 7.0), (0, 1, 2, 4), 5, 7),
+    (("leaky", 1.0 / 1.001), (0, 2, 3, 4), 5, 7),
     (("adaptive", 3.0, 1.0, 10.0, None, 0.5, 1.0), (0, 1, 2), 4, 5),
     (("adaptive", 20.0, 10.0, 100.0, None, 0.7, 0.1), (0, 1, 2), 4, 5),
 ]
@@ -494,11 +506,20 @@ def run_policy_driver(run, name, table, dyadic, tier, seed, modes, eps=(-1, 0, 1
         bounds["specs"].append({"spec": list(spec), "grid_ns": grid, "max_len": depth, "ops": list(base_kinds)})
         for mode in modes:
             kinds, dm = base_kinds, depth
+            g = grid
             if mode == "queries":
                 kinds, dm = base_kinds + ("tua",), max(1, depth - QUERIES_SHORTER[tier])
-            for gi in range(len(grid)):
+            if mode == "reasons":
+                # feedback alphabet = record_success + record_failure with the default reason and with
+                # EVERY member of the reason enum; coarser grid (no +-1 ns), one op shorter
+                kinds = ("acq", "succ", "fail") + tuple(f"fail:{r.name}" for r in RateAdjustmentReason)
+                dm = max(1, depth - 1)
+                g = make_grid(spec, halves, (0,))
+                bounds.setdefault("reasons_mode", {"failure_reasons": ["<default>"] + [r.name for r in RateAdjustmentReason],
+                                                   "grid_eps_ns": [0], "max_len": "max_len - 1"})
+            for gi in range(len(g)):
                 for k in kinds:
-                    jobs.append((spec, dyadic, grid, dm, mode, kinds, (k, gi)))
+                    jobs.append((spec, dyadic, g, dm, mode, kinds, (k, gi)))
     d = run.driver(name, bounds)
     states, outcomes = set(), set()
     found = {}
@@ -734,12 +755,16 @@ ENTITY_KINDS_DYADIC = [
 ENTITY_TIMES = [0, S // 2, S - 1, S, S + 1, 2 * S]
 ENTITY_TIMES_THOROUGH = [0, S // 2, S - 1, S, S + 1, 3 * S // 2, 2 * S]
 ENTITY_KINDS_NONDYADIC = [
+    ("rle", ("fixed", 1, 1.001)),
+    ("rle", ("sliding", 1.001, 1)),
+    ("rle", ("token", 1.0, 1.5, None)),
+    ("rle", ("leaky", 7.0)),
     ("rle", ("fixed", 1, 0.1)),
     ("rle", ("token", 1.0, 3.0, None)),
     ("rle", ("sliding", 0.3, 1)),
     ("rle", ("leaky", 10.0)),
 ]
-ENTITY_TIMES_ND = [0, S // 10, 3 * S // 10, 3 * S // 10 + 1, S // 3, 6 * S // 10]
+ENTITY_TIMES_ND = [0, S // 10, 3 * S // 10, 3 * S // 10 + 1, S // 3, 6 * S // 10, 1_000_999_999, 1_001_000_000]
 
 
 def run_entity_driver(run, name, kinds, times, hops, caps, nmax, seed, horizon, dyadic=True):
@@ -810,7 +835,7 @@ def main(tier, seed, only=None):
         ("policy-dyadic", lambda: run_policy_driver(run, "policy-dyadic", DYADIC_SPECS, True, tier, seed,
                                                     modes + ["queries"])),
         ("policy-adaptive", lambda: run_policy_driver(run, "policy-adaptive", ADAPTIVE_SPECS, True, tier, seed,
-                                                      modes, eps=(-1, 0, 1) if tier != "quick" else (0, 1))),
+                                                      modes + ["reasons"], eps=(-1, 0, 1) if tier != "quick" else (0, 1))),
         ("policy-nondyadic", lambda: run_policy_driver(run, "policy-nondyadic", NONDYADIC_SPECS, False, tier,
                                                        seed, modes)),
         ("entity", lambda: run_entity_driver(run, "entity", ENTITY_KINDS_DYADIC,
